@@ -1,6 +1,7 @@
 package main
 
 import (
+	"context"
 	"encoding/json"
 	"flag"
 	"fmt"
@@ -31,6 +32,7 @@ var (
 	flagDump    = flag.String("dump", "", "dump the SMT of obligations whose name contains this substring to stdout")
 	flagNoEvid  = flag.Bool("no-evidence", false, "do not write the evidence file")
 	flagBudget  = flag.Int("budget", 0, "solver budget in seconds (0 = tier default)")
+	flagSplit   = flag.Bool("split", false, "debug: split conjunctive goals into one obligation per conjunct")
 )
 
 var bindErrs []string
@@ -255,6 +257,7 @@ type Evidence struct {
 
 func main() {
 	flag.Parse()
+	splitMode = *flagSplit
 	t0 := time.Now()
 	os.Exit(run(t0))
 }
@@ -394,6 +397,18 @@ func run(t0 time.Time) int {
 			defer jwg.Done()
 			jsem <- struct{}{}
 			defer func() { <-jsem }()
+			if o.Expect == "sat" {
+				// reachability / satisfiability probes: a short budget; "unknown" is acceptable, only "unsat" is vacuity
+				r := runSolver(context.Background(), solvers[0], file, 2)
+				if r.Status != "sat" && r.Status != "unsat" {
+					r2 := runSolver(context.Background(), solvers[1], file, 2)
+					if r2.Status == "sat" || r2.Status == "unsat" {
+						r = r2
+					}
+				}
+				o.Res = r
+				return
+			}
 			if *flagTier == "thorough" && o.Expect == "" {
 				best, all, disagree := solveAll(file, budget, lambda)
 				o.Res, o.All = best, all
@@ -495,6 +510,13 @@ func run(t0 time.Time) int {
 	if *flagVerbose {
 		for _, j := range jobs {
 			fmt.Printf("  %-8s %-7s %5.2fs %s\n", j.o.Res.Status, j.o.Res.Solver, j.o.Res.Secs, j.o.Name)
+			if *flagSplit && j.o.Res.Status != "unsat" && j.o.Expect == "" {
+				d := j.o.Detail
+				if len(d) > 300 {
+					d = d[:300]
+				}
+				fmt.Printf("           conjunct: %s\n", d)
+			}
 		}
 	}
 	if prop != "" && !*flagNoEvid {
